@@ -54,6 +54,7 @@ def main(args):
     run_tests = os.environ.get("NSIM_MUT_TESTS") == "1"
     tier = args.tier
     rows = []
+    printed = 0
     bad = 0
     for m in mutants():
         if not fnmatch.fnmatch(m["name"], pat):
@@ -96,8 +97,10 @@ def main(args):
                 bad += 1
         finally:
             shutil.rmtree(d, ignore_errors=True)
-            if rows:
-                print(f"{rows[-1][0]:45s} {rows[-1][1]:10s} {rows[-1][2]}", flush=True)
+            for row in rows[printed:]:
+                print(f"{row[0]:45s} {row[1]:10s} {row[2]}", flush=True)
+            printed = len(rows)
     # replays written while running against copies are of no further use
-    print(f"selftest-sensitivity: {len(rows) - bad}/{len(rows)} mutants detected")
+    n_mut = sum(1 for r in rows if not r[1].startswith("HARNESS-ERROR"))
+    print(f"selftest-sensitivity: {n_mut - bad}/{n_mut} mutants detected")
     return 0 if bad == 0 else 2
